@@ -72,6 +72,7 @@ func runC06(run *Run, replay string) {
 	run.Res.Rule = "(1) generated constraints of every kind and nesting: Constraint.EmptyCompletionData with and without required-field prefilling, two starting placeholders and nesting levels, compared with the model; its snippet must use consecutive tab stops from the starting placeholder and its plain text none; (2) CompletionAtPos (prefill on and off; candidate limit 100 and lowered to 3) on generated scenarios at token boundaries: every candidate's edit range is in the requested file, well formed, starts at or before the cursor and reaches it up to blanks, the plain text has no tab-stop syntax, the snippet's stops are consecutive and used once, the list never exceeds the limit and a list marked complete is not a truncation; distinct non-trivial = distinct (file text, offset, prefill) with candidates"
 	hookLimitOracle(run)
 	hookCandsCases(run)
+	valueCandsCases(run)
 	// ---- (1) EmptyCompletionData
 	r := rand.New(rand.NewSource(subSeed(run.Res.Seed, 606060)))
 	nc := 400
@@ -79,13 +80,37 @@ func runC06(run *Run, replay string) {
 		nc = 8000
 	}
 	o := &GenOpts{}
-	for i := 0; i < nc; i++ {
+	fixedVals := literalValueFamily()
+	for i := -2 * len(fixedVals); i < nc; i++ {
 		if i%9 == 8 {
 			o.Degenerate = true
 		} else {
 			o.Degenerate = false
 		}
-		c := genConstraint(r, 3, o)
+		var c schema.Constraint
+		if i < 0 {
+			// fixed values of every shape (own family, no random draw), alone and inside other constraints
+			k := -i - 1
+			v := fixedVals[k%len(fixedVals)]
+			c = schema.LiteralValue{Value: v}
+			if k >= len(fixedVals) {
+				w := fixedVals[(k+3)%len(fixedVals)]
+				switch k % 5 {
+				case 0:
+					c = schema.List{Elem: schema.LiteralValue{Value: v}}
+				case 1:
+					c = schema.Tuple{Elems: []schema.Constraint{schema.LiteralValue{Value: v}, schema.LiteralType{Type: cty.String}, schema.LiteralValue{Value: w}}}
+				case 2:
+					c = schema.Object{Attributes: schema.ObjectAttributes{"a": {IsRequired: true, Constraint: schema.LiteralValue{Value: v}}, "b": {IsRequired: true, Constraint: schema.LiteralValue{Value: w}}}}
+				case 3:
+					c = schema.Map{Elem: schema.LiteralValue{Value: v}}
+				default:
+					c = schema.OneOf{schema.LiteralValue{Value: v}, schema.LiteralValue{Value: w}}
+				}
+			}
+		} else {
+			c = genConstraint(r, 3, o)
+		}
 		for _, prefill := range []bool{false, true} {
 			next := pick(r, []int{1, 3})
 			lvl := pick(r, []int{0, 1})
@@ -388,5 +413,30 @@ func hookLimitOracle(run *Run) {
 					Replay: map[string]interface{}{"src": src, "hook_candidates": tc.hooks, "declarations": tc.refs}})
 			}
 		}
+	}
+}
+
+// literalValueFamily: fixed values of every shape LiteralValue.EmptyCompletionData distinguishes - primitives
+// (multi-line and quoted strings, fractions), sequences and maps of them, objects (whose rendering depends on
+// required-field prefilling and holds tab stops) alone and as elements of lists, sets, tuples and maps, nested
+func literalValueFamily() []cty.Value {
+	eo := cty.EmptyObjectVal
+	o1 := cty.ObjectVal(map[string]cty.Value{"k": cty.StringVal("v"), "n": cty.NumberIntVal(1)})
+	o2 := cty.ObjectVal(map[string]cty.Value{"inner": eo, "s": cty.StringVal("x")})
+	oopt := cty.ObjectVal(map[string]cty.Value{"a": cty.StringVal("x"), "b": cty.True})
+	return []cty.Value{
+		cty.True, cty.False, cty.NumberIntVal(42), cty.NumberFloatVal(1.5), cty.NumberIntVal(-7),
+		cty.StringVal("plain"), cty.StringVal("q\"x\\y"), cty.StringVal("two\nlines"), cty.StringVal("ends\n"), cty.StringVal("tab\there"), cty.StringVal(""),
+		cty.ListVal([]cty.Value{cty.StringVal("a"), cty.StringVal("b")}), cty.ListValEmpty(cty.String),
+		cty.SetVal([]cty.Value{cty.NumberIntVal(2), cty.NumberIntVal(1)}),
+		cty.TupleVal([]cty.Value{cty.StringVal("t"), cty.NumberIntVal(3), cty.True}), cty.EmptyTupleVal,
+		cty.MapVal(map[string]cty.Value{"k1": cty.NumberIntVal(1), "k 2": cty.NumberIntVal(2)}), cty.MapValEmpty(cty.Bool),
+		eo, o1, o2, oopt,
+		cty.TupleVal([]cty.Value{eo, eo}), cty.TupleVal([]cty.Value{o1, cty.StringVal("mid"), eo, o2}),
+		cty.ListVal([]cty.Value{eo, eo, eo}), cty.ListVal([]cty.Value{o1, o1}), cty.SetVal([]cty.Value{o1}),
+		cty.MapVal(map[string]cty.Value{"x": eo, "y": eo}), cty.MapVal(map[string]cty.Value{"m": o1}),
+		cty.MapVal(map[string]cty.Value{"t": cty.TupleVal([]cty.Value{eo, eo}), "u": cty.TupleVal([]cty.Value{eo, eo})}),
+		cty.TupleVal([]cty.Value{cty.MapVal(map[string]cty.Value{"x": eo}), cty.TupleVal([]cty.Value{eo, o2}), cty.StringVal("two\nlines")}),
+		cty.ObjectVal(map[string]cty.Value{"list": cty.TupleVal([]cty.Value{eo, eo}), "obj": o2, "txt": cty.StringVal("two\nlines")}),
 	}
 }
